@@ -20,12 +20,14 @@ PROPS = {
         "level": "proof",
         "design_ref": "DESIGN.md section 5, C12",
         "summary": ("String pool contracts on the real src/arena/pool.rs: size_class over every u32 against the slot tables, "
-                    "SlotBlock address arithmetic over every address, and Pool::alloc / Pool::dealloc as an inductive step from "
-                    "every well-formed state of a small pool (ghost live set = handed-out minus free), PoolSet class routing and "
-                    "arena fallback."),
-        "not_covered": ("pools with more than 6 slots are covered by uniformity of the code in slot_count, not by enumeration; "
-                        "PoolSet::new's production layout (1.3 MiB) is replaced by a hand-laid-out set with few slots per class."),
-        "trusted_base": [OS_TRUST, KANI_TRUST],
+                    "SlotBlock address arithmetic over every address, Pool::alloc / Pool::dealloc verified by Verus as an inductive step "
+                    "from every well-formed state of a pool of ANY size (ghost live set = handed-out minus free, whole-view frame, "
+                    "pigeonhole lemma: the free list never overflows) and by Kani on the real pointer code with the debug poison "
+                    "assertion for small pools, constructors, PoolSet class routing and arena fallback."),
+        "not_covered": ("PoolSet::new's production layout (1.3 MiB) is replaced by a hand-laid-out set with few slots per class in the "
+                        "Kani harnesses; the Verus unit abstracts slot pointers to indices and the free list to a sequence (their pointer "
+                        "code is what the Kani harnesses execute)."),
+        "trusted_base": [OS_TRUST, KANI_TRUST, VERUS_TRUST],
     },
     "C13": {
         "level": "proof",
